@@ -284,7 +284,14 @@ func (r *PaginatedResourceRepository[ResourceType, OptionsType]) Paginate(
 
 	switch v := any(paginationQuery).(type) {
 	case OffsetPaginatedQuery[OptionsType]:
+		// decoded from a client supplied cursor: it may lack what a cursor we issued always carries
+		if v.Column == "" || v.Order == nil {
+			return nil, NewErrInvalidQuery("invalid cursor: missing column or order")
+		}
 	case ColumnPaginatedQuery[OptionsType]:
+		if v.Column == "" || v.Order == nil {
+			return nil, NewErrInvalidQuery("invalid cursor: missing column or order")
+		}
 	case InitialPaginatedQuery[OptionsType]:
 
 		if v.Column == "" {
@@ -299,7 +306,7 @@ func (r *PaginatedResourceRepository[ResourceType, OptionsType]) Paginate(
 
 		_, field := r.resourceHandler.Schema().GetFieldByNameOrAlias(v.Column)
 		if field == nil {
-			return nil, fmt.Errorf("invalid property '%s' for pagination", v.Column)
+			return nil, NewErrInvalidQuery("invalid property '%s' for pagination", v.Column)
 		}
 
 		if !field.IsPaginated {
@@ -336,7 +343,7 @@ func (r *PaginatedResourceRepository[ResourceType, OptionsType]) Paginate(
 	case ColumnPaginatedQuery[OptionsType]:
 		fieldName, field := r.resourceHandler.Schema().GetFieldByNameOrAlias(v.Column)
 		if field == nil {
-			return nil, fmt.Errorf("invalid property '%s' for pagination", v.Column)
+			return nil, NewErrInvalidQuery("invalid property '%s' for pagination", v.Column)
 		}
 		paginator = newColumnPaginator[ResourceType, OptionsType](v, fieldName, field.Type)
 		resourceQuery = v.Options
